@@ -37,11 +37,14 @@ def make_alignment(mode, gx, gy, feature):
     spans = [tuple(sp) for sp in feature["spans"]]
     if mode == "add":
         created = aln.add_feature(seqid="x", biotype=feature["bio"], name=feature["name"], spans=spans, strand=feature["strand"])
+        # the same spans as alignment (column) coordinates: an alignment-level feature
+        aln.add_feature(biotype="region", name="r", spans=spans, strand=feature["strand"], on_alignment=True)
         return aln, created
     from cogent3.core.annotation_db import BasicAnnotationDb
 
     db = BasicAnnotationDb()
     db.add_feature(seqid="x", biotype=feature["bio"], name=feature["name"], spans=spans, strand=feature["strand"])
+    db.add_feature(seqid=None, biotype="region", name="r", spans=spans, strand=feature["strand"], on_alignment=True)
     aln.annotation_db = db
     return aln, None
 
@@ -87,7 +90,7 @@ def observe(rep, ctx, v, state, obs, chain):
         status = obs["vis"] if partial else obs["inside"]
         rep.stats["aln_queries"] += 1
         try:
-            got = v.get_features(seqid="x", allow_partial=partial)
+            got = v.get_features(seqid="x", on_alignment=False, allow_partial=partial)
             got = [] if got is None else list(got)
         except Exception as ex:
             if obs["heldx"] == 0:
@@ -171,6 +174,68 @@ def observe(rep, ctx, v, state, obs, chain):
                     f"feature projected onto y differs in {pd}")
 
 
+class _Sub:
+    """collects the disagreements of one question so that they can be reported under one key"""
+
+    def __init__(self, rep):
+        self.fail = {}
+        self.stats = rep.stats
+
+    def add(self, key, detail_fn, what):
+        self.fail.setdefault(key, (detail_fn, what))
+
+
+def observe_region(rep, ctx, v, state, obs, chain):
+    """the alignment-level feature r (on_alignment=True) on the view"""
+    robs = obs["region"]
+    x, y, compl, gap = ctx["x"], ctx["y"], ctx["compl"], ctx["gap"]
+    sub = _Sub(rep)
+    d = "rev" if state[5] else "fwd"
+    for partial in (True, False):
+        status = robs["vis"] if partial else robs["inside"]
+        tag = "partial" if partial else "strict"
+        rep.stats["aln_region_queries"] += 1
+        try:
+            got = v.get_features(on_alignment=True, allow_partial=partial)
+            got = [g for g in ([] if got is None else list(got)) if (g.biotype, g.name) == ("region", "r")]
+        except Exception as ex:
+            sub.add(f"{tag}:raised-{type(ex).__name__}", lambda ex=ex: {"exception": repr(ex)}, f"raised {ex!r}")
+            continue
+        if len(got) > 1:
+            sub.add(f"{tag}:duplicates", lambda: {}, "returned twice")
+        if not got:
+            if status == "in":
+                sub.add(f"{tag}:missing", lambda: {}, "not returned")
+            continue
+        if status == "out":
+            sub.add(f"{tag}:unexpected", lambda: {}, "returned although it is not in / inside the view")
+            continue
+        g = got[0]
+        pr = I.project(g)
+        diffs = [k for k in ("pos", "rev") if pr[k] != robs[k]]
+        if diffs:
+            sub.add(f"{tag}:" + ",".join(diffs), lambda pr=pr: {"observed": pr}, f"differs in {diffs}")
+        if partial and robs["pos"]:
+            want = {"x": render_row(x, robs["rowx"], robs["fcomp"], compl, gap), "y": render_row(y, robs["rowy"], robs["fcomp"], compl, gap)}
+            try:
+                sl = g.get_slice().to_dict()
+            except Exception as ex:
+                sub.add(f"get_slice:raised-{type(ex).__name__}", lambda ex=ex: {"exception": repr(ex)}, f"get_slice raised {ex!r}")
+                continue
+            if sl != want:
+                sub.add("get_slice:rows", lambda sl=sl, want=want: {"observed_slice": sl, "expected_slice": want}, f"slice {sl} != {want}")
+    if sub.fail:
+        where = "whole" if len(state[4]) == ctx["L"] else "sliced"
+        first = sorted(sub.fail)[0]
+        fn, what = sub.fail[first]
+        extra = fn()
+        strand = "-" if robs["fcomp"] else "+"
+        rep.add(f"aln:on_alignment:{strand}:{where}:queries-disagree",
+                lambda: {"level": "alignment", "mode": ctx["mode"], "rows": {"x": ctx["gx"], "y": ctx["gy"]}, "feature": ctx["feature"],
+                         "chain": chain(), "state": state, "view": v.to_dict(), "expected": robs, "all_disagreements": sorted(sub.fail), **extra},
+                f"alignment-level feature r on the view: {first} {what}")
+
+
 def check_created(rep, ctx, created, state, obs):
     rep.stats["aln_created"] += 1
     pr = I.project(created)
@@ -189,7 +254,7 @@ def check_created(rep, ctx, created, state, obs):
 def check_variant(rep, G, mode, ukey, u):
     meta = u["meta"]
     x, y, gx, gy = strings(G["seed"], ukey, meta)
-    ctx = {"mode": mode, "x": x, "y": y, "gx": gx, "gy": gy, "compl": meta["compl"], "gap": meta["gap"], "feature": meta["feature"], "ukey": ukey}
+    ctx = {"mode": mode, "x": x, "y": y, "gx": gx, "gy": gy, "compl": meta["compl"], "gap": meta["gap"], "feature": meta["feature"], "ukey": ukey, "L": meta["L"]}
     rootkey = dumps(meta["from"])
     rep.stats["aln_universe_variants"] += 1
     try:
@@ -222,6 +287,7 @@ def check_variant(rep, G, mode, ukey, u):
         state = look["from"]
         rep.stats["states"] += 1
         observe(rep, ctx, o, state, look["obs"], chain_of(fk))
+        observe_region(rep, ctx, o, state, look["obs"], chain_of(fk))
         for act, args, tk, obs in trans.get(fk, ()):
             tree = tk in looks and tk not in objs
             if not tree:
@@ -261,7 +327,7 @@ def replay(d):
         print(f"  {act}{args} -> {v.to_dict()}")
     for partial in (True, False):
         try:
-            got = list(v.get_features(seqid="x", allow_partial=partial))
+            got = list(v.get_features(seqid="x", on_alignment=False, allow_partial=partial))
             print(f"  get_features(seqid='x', allow_partial={partial}):")
             for g in got:
                 try:
